@@ -200,6 +200,7 @@ def gen_hand_sys(rng, n, L):
         for t in range(rng.randint(2, n)): sd['dens'][t] = sd['dens'][0]
         sd['dens_group'] = True                                  # several densities assigned in one statement (density[['A','B']] = rho)
     if rng.random() < 0.3: sd['kT_assign'] = 1.0
+    if n >= 2 and not sd.get('dens_group') and rng.random() < 0.3: sd['dens_order'] = rng.sample(range(n), n)          # densities assigned in any order
     if n >= 2 and rng.random() < 0.5: sd['diam_order'] = rng.sample(range(n), n) + ([0] if rng.random() < 0.5 else [])
     return sd
 
